@@ -240,7 +240,9 @@ Proof. intros fuel toks sc H. eapply write_pattern_bounds; eassumption. Qed.
    output <= F bytes, every minimum_fraction_digits <= K, transform lengthens by at most a factor
    T" needs one more invariant over all values in flight (in particular strings resolved from
    patterns in call-argument position can be printed again through term parameters) and was not
-   attempted.  Without a bound on minimum_fraction_digits no W exists (D11). *)
+   attempted.  Without a bound on minimum_fraction_digits no W exists (D11).
+   (Since then that invariant has been proved: C06_bounded_bytes at the end of this file derives W
+   from the inputs; this statement is kept as the lemma it is.) *)
 Theorem C06_bounded_bytes_partial :
   forall W fuel toks sc,
     write_pattern overflow_checks call_function transform formatter rules custom_as_string
@@ -256,3 +258,322 @@ Proof.
 Qed.
 
 End C06_bounds.
+
+(* ---------- bounded output IN BYTES, from the inputs alone ---------- *)
+From FluentV Require Import Bundle.ResolverBytes.
+
+Section C06_bytes.
+Variable overflow_checks : bool.
+Variable call_function : bytes -> list fvalue -> fargs -> fvalue.
+Variable transform : option (bytes -> bytes).
+Variable formatter : option (fvalue -> option bytes).
+Variable rules : ntype -> rules_fn.
+Variable custom_as_string : bytes -> bytes.
+Variable unescape_write : bytes -> bytes.
+Variable unescape_to_string : bytes -> bytes.
+Variable f64_from_str : bytes -> option fval.
+Variable b : bundle.
+Variable args : option fargs.
+Variable top : option pkey.
+Variable p : pattern.
+Variable intls : intl_cache.
+(* C as in C06_bounded_partial *)
+Variable C : nat.
+Hypothesis HC : forall q, In q (bundle_patterns b) -> sz_pattern q <= C.
+Hypothesis Hp : sz_pattern p <= C.
+(* the four bounds; each is compared with a MEASURE OF THE INPUTS defined in Bundle/ResolverBytes.v
+   (so Lmax, Amax, Kmax can be taken equal to the measures: they are not assumptions) *)
+Variable Lmax Amax Fmax : nat.
+Variable Kmax : N.
+(* well-formedness of named arguments (a computed boolean): no named-argument value is a message
+   reference, a term reference or a placeable, and a value named minimumFractionDigits is a literal.
+   The grammar allows literals only (NamedArgument ::= Identifier ":" (StringLiteral | NumberLiteral):
+   ResolverBytes.named_literals_ok), but fluent-syntax ACCEPTS a message reference or a function call
+   there (get_inline_expression: the identifier arm is not guarded by !only_literal), and with a
+   message reference as the value of a term parameter the output is exponential in the size of the
+   resources — REAL CODE, see C06_example_named_message_reference below.  This premise excludes
+   exactly that; without it no bound in terms of Lmax, Amax, Fmax, Kmax exists. *)
+Hypothesis Hwf : named_args_ok b p = true.
+(* (a) the longest string of p and of the bundle's patterns (variant patterns included): text
+   elements, string and number literals, the text of every `{reference}` fallback
+   (inline_write_error: id, -id.attr, id(), $id) *)
+Hypothesis Ha : strings_max b p <= Lmax.
+(* (b) the longest printed argument: strings by length, numbers by FluentNumber::as_string (value
+   and options), custom values by FluentType::as_string *)
+Hypothesis Hb : args_size custom_as_string args <= Amax.
+(* (c) external code (section variables): every value a registered function returns prints in
+   <= Fmax bytes, every formatter output has <= Fmax bytes, and transform, unescape_unicode and
+   f64::from_str+Display map a string of <= Lmax bytes to <= Fmax bytes *)
+Hypothesis Hc : external_bounded call_function transform formatter custom_as_string unescape_write
+                  unescape_to_string f64_from_str Lmax Fmax.
+(* (d) the largest minimumFractionDigits literal among the named arguments of the calls in p and
+   the bundle.  This is the VALUE of a literal, not its length: the code pads a number with that
+   many zeros whatever the value (FluentNumber::as_string; finding D11, NUMBER(1,
+   minimumFractionDigits: 99999999999) asks for ~10^11 bytes from an 11-byte literal).  With Kmax
+   = the measure the theorem holds for D11 too and says how large the output may get; "bounded by
+   a fixed multiple of the SIZE of the resources" holds exactly for the inputs where this value is
+   bounded by their size — hypothesis (d) excludes exactly D11.  (minimum_fraction_digits of
+   arguments and of function results need no hypothesis: (b)/(c) bound their printed form, which
+   is at least that long.) *)
+Hypothesis Hd : (mfd_max f64_from_str b p <= Kmax)%N.
+
+(* "the output is bounded by a fixed multiple of the combined size of resources and arguments":
+   every piece written has at most W bytes (Bundle/ResolverBytes.v write_pattern_tokens: an
+   invariant over every value in flight — Numbers, term parameters, arguments), and there are at
+   most C + (MAX_PLACEABLES + 1) x (C + 8) pieces (C06_bounded_partial).  For every fuel, i.e.
+   whenever the call returns (that it does: C06_total); through either entry point. *)
+Theorem C06_bounded_bytes :
+  let B := Nat.max Lmax (Nat.max Amax Fmax) in
+  let W := B + Nat.max (N.to_nat Kmax) B + 3 in
+  (forall fuel toks sc,
+     write_pattern overflow_checks call_function transform formatter rules custom_as_string
+       unescape_write unescape_to_string f64_from_str b args fuel top p intls = Done (toks, sc) ->
+     length (flatten toks) <= W * (C + (N.to_nat MAX_PLACEABLES + 1) * (C + 8))) /\
+  (forall fuel text sc,
+     format_pattern overflow_checks call_function transform formatter rules custom_as_string
+       unescape_write unescape_to_string f64_from_str b args fuel top p intls = Done (text, sc) ->
+     length text <= W * (C + (N.to_nat MAX_PLACEABLES + 1) * (C + 8))).
+Proof.
+  split.
+  - intros fuel toks sc H.
+    exact (write_pattern_bytes overflow_checks call_function transform formatter rules custom_as_string
+             unescape_write unescape_to_string f64_from_str b args p Lmax Amax Fmax Kmax C
+             Hwf Ha Hd Hb Hc HC Hp fuel top intls toks sc H).
+  - intros fuel text sc H.
+    exact (format_pattern_bytes overflow_checks call_function transform formatter rules custom_as_string
+             unescape_write unescape_to_string f64_from_str b args p Lmax Amax Fmax Kmax C
+             Hwf Ha Hd Hb Hc HC Hp fuel top intls text sc H).
+Qed.
+
+End C06_bytes.
+Print Assumptions C06_bounded_bytes.
+
+(* The float parser the extracted model is run with meets its part of (c) with Fmax = Lmax + 1:
+   it prints what it read, minus redundant zeros, plus a 0 before a leading point. *)
+Theorem C06_exact_parser_prints_short :
+  forall s v, f64_from_str_exact s = Some v -> length (fval_to_string v) <= length s + 1.
+Proof. exact f64_from_str_exact_prints_short. Qed.
+Print Assumptions C06_exact_parser_prints_short.
+
+(* ---------- non-vacuity of C06_bounded_bytes ---------- *)
+(* the external code of the examples above meets (c) for every L with F = L + 1 *)
+Lemma ex_external_bounded Lmax :
+  external_bounded ex_call None None ex_id ex_id ex_id f64_from_str_exact Lmax (Lmax + 1).
+Proof.
+  unfold external_bounded, ex_id. repeat split; try discriminate.
+  - intros name pos named. cbn. apply Nat.le_0_l.
+  - intros x Hx. apply (Nat.le_trans _ _ _ Hx), Nat.le_add_r.
+  - intros x Hx. apply (Nat.le_trans _ _ _ Hx), Nat.le_add_r.
+  - intros x v Hx E. apply (Nat.le_trans _ _ _ (f64_from_str_exact_prints_short x v E)), Nat.add_le_mono_r, Hx.
+Qed.
+
+(* billion laughs: L = 4 (the ids), no arguments, no options: W = 5 + 5 + 3, C = 10, at most
+   13 x 1828 = 23764 bytes for every fuel (the run above: 276) *)
+Example C06_example_bytes_laughs :
+  forall fuel toks sc,
+    write_pattern true ex_call None None ex_rules_one ex_id ex_id ex_id f64_from_str_exact (Bundle laughs false) None
+      fuel (Some (PKey false (s "lol3") None)) (Pattern (repeat (ref "lol2") 10)) [] = Done (toks, sc) ->
+    length (flatten toks) <= (5 + Nat.max 0 5 + 3) * (10 + (N.to_nat MAX_PLACEABLES + 1) * (10 + 8)).
+Proof.
+  intros fuel toks sc H.
+  refine (proj1 (C06_bounded_bytes true ex_call None None ex_rules_one ex_id ex_id ex_id f64_from_str_exact
+                   (Bundle laughs false) None (Some (PKey false (s "lol3") None)) (Pattern (repeat (ref "lol2") 10)) []
+                   10 _ _ 4 0 5 0%N _ _ _ _ _) fuel toks sc H).
+  - apply sz_bound_check. vm_compute. reflexivity.
+  - apply Nat.leb_le. vm_compute. reflexivity.
+  - vm_compute. reflexivity.
+  - apply Nat.leb_le. vm_compute. reflexivity.
+  - apply Nat.leb_le. vm_compute. reflexivity.
+  - exact (ex_external_bounded 4).
+  - apply N.leb_le. vm_compute. reflexivity.
+Qed.
+
+(* every kind of value at once:  m = { NUMBER($n, minimumFractionDigits: 3) } { -t(x: "abc") }{ lol1 }{ 2.50 },
+   -t = <{ $x }>,  $n = 1.5,  isolation on.  L = 8 ("NUMBER()"), A = 3, F = 9, K = 3: W = 9 + 9 + 3 *)
+Definition rich_p : pattern :=
+  Pattern [PlaceableElement (Inline (FunctionReference (s "NUMBER")
+              (CallArguments [VariableReference (s "n")]
+                             [NamedArgument (s "minimumFractionDigits") (NumberLiteral (s "3"))])));
+           TextElement (s " ");
+           PlaceableElement (Inline (TermReference (s "t") None
+              (Some (CallArguments [] [NamedArgument (s "x") (StringLiteral (s "abc"))]))));
+           ref "lol1"; PlaceableElement (Inline (NumberLiteral (s "2.50")))].
+Definition rich : bundle :=
+  Bundle ([(s "NUMBER", EFunction FnNUMBER);
+           (s "t", ETerm (Pattern [TextElement (s "<"); PlaceableElement (Inline (VariableReference (s "x")));
+                                   TextElement (s ">")]) []);
+           (s "m", EMessage (Some rich_p) [])] ++ laughs) true.
+Definition rich_args : option fargs :=
+  Some [(s "n", VNumber (FNum (FDec false (s "1") (s "5")) default_options))].
+
+Example C06_example_bytes_measures :
+  (named_args_ok rich rich_p, strings_max rich rich_p, args_size ex_id rich_args, mfd_max f64_from_str_exact rich rich_p)
+  = (true, 8, 3, 3%N).
+Proof. vm_compute. reflexivity. Qed.
+
+Example C06_example_bytes_rich :
+  forall fuel toks sc,
+    write_pattern true ex_call None None ex_rules_one ex_id ex_id ex_id f64_from_str_exact rich rich_args
+      fuel (Some (PKey false (s "m") None)) rich_p [] = Done (toks, sc) ->
+    length (flatten toks) <= (9 + Nat.max 3 9 + 3) * (10 + (N.to_nat MAX_PLACEABLES + 1) * (10 + 8)).
+Proof.
+  intros fuel toks sc H.
+  refine (proj1 (C06_bounded_bytes true ex_call None None ex_rules_one ex_id ex_id ex_id f64_from_str_exact
+                   rich rich_args (Some (PKey false (s "m") None)) rich_p []
+                   10 _ _ 8 3 9 3%N _ _ _ _ _) fuel toks sc H).
+  - apply sz_bound_check. vm_compute. reflexivity.
+  - apply Nat.leb_le. vm_compute. reflexivity.
+  - vm_compute. reflexivity.
+  - apply Nat.leb_le. vm_compute. reflexivity.
+  - apply Nat.leb_le. vm_compute. reflexivity.
+  - exact (ex_external_bounded 8).
+  - apply N.leb_le. vm_compute. reflexivity.
+Qed.
+
+(* ... and the call does return: 22 pieces, the widest ("1.500") 5 bytes, 63 bytes in all *)
+Example C06_example_bytes_rich_run :
+  match write_pattern true ex_call None None ex_rules_one ex_id ex_id ex_id f64_from_str_exact rich rich_args
+          (fuel_of rich rich_p) (Some (PKey false (s "m") None)) rich_p [] with
+  | Done (t, sc) => Some (length t, list_max (map (fun x => length (token_bytes x)) t), length (flatten t), sc_errors sc)
+  | _ => None
+  end = Some (22, 5, 63, []).
+Proof. vm_compute. reflexivity. Qed.
+
+(* D11 is exactly what (d) measures: an 11-byte literal, Kmax must be 99999999999 *)
+Example C06_example_bytes_D11 :
+  let p := Pattern [PlaceableElement (Inline (FunctionReference (s "NUMBER")
+              (CallArguments [NumberLiteral (s "1")]
+                             [NamedArgument (s "minimumFractionDigits") (NumberLiteral (s "99999999999"))])))] in
+  (strings_max (Bundle [] false) p, mfd_max f64_from_str_exact (Bundle [] false) p) = (11, 99999999999%N).
+Proof. vm_compute. reflexivity. Qed.
+
+(* Why named_args_ok is a premise — a finding about the real code, not a proof artefact.  Resources
+   that fluent-syntax parses without error:
+       -t = {$x}{$x}{$x}      m = ab      ma = { -t(x: m) }      maa = { -t(x: ma) }   ...
+   (a message reference as the value of a named argument).  Formatting the 8th of the chain resolves
+   33 placeables, reports no error, every string of the input has <= 9 bytes, and ONE piece of the
+   output has 2 x 3^7 = 4374 bytes, the whole output 13122 = 6 x 3^7 bytes; each further message
+   (~25 bytes, 4 placeables) triples it.  The real bundle returns the same 13122 bytes, 9565938 bytes
+   at depth 14 from 459 bytes of FTL; depth 24 stays under the limit of 100 placeables. *)
+Definition chain_name (k : nat) : bytes := s "m" ++ repeat 97%N k.
+Definition chain_msg (k : nat) : bytes * bentry :=
+  (chain_name (S k),
+   EMessage (Some (Pattern [PlaceableElement (Inline (TermReference (s "t") None
+              (Some (CallArguments [] [NamedArgument (s "x") (MessageReference (chain_name k) None)]))))])) []).
+Definition chain (d : nat) : bundle :=
+  let vx := PlaceableElement (Inline (VariableReference (s "x"))) in
+  Bundle ((s "t", ETerm (Pattern [vx; vx; vx]) []) ::
+          (chain_name 0, EMessage (Some (Pattern [TextElement (s "ab")])) []) :: map chain_msg (seq 0 d)) false.
+Example C06_example_named_message_reference :
+  let p := Pattern [PlaceableElement (Inline (MessageReference (chain_name 8) None))] in
+  match write_pattern true ex_call None None ex_rules_one ex_id ex_id ex_id f64_from_str_exact (chain 8) None
+          (fuel_of (chain 8) p) None p [] with
+  | Done (t, sc) => Some (named_args_ok (chain 8) p, strings_max (chain 8) p,
+                          N.of_nat (list_max (map (fun x => length (token_bytes x)) t)),
+                          N.of_nat (length (flatten t)), sc_placeables sc, sc_errors sc)
+  | _ => None
+  end = Some (false, 9, 4374%N, 13122%N, 33%N, []).
+Proof. vm_compute. reflexivity. Qed.
+
+(* ---------- ... as a FIXED MULTIPLE of the input size ---------- *)
+From FluentV Require Import Bundle.ResolverBytesLinear.
+
+Section C06_linear.
+Variable overflow_checks : bool.
+Variable call_function : bytes -> list fvalue -> fargs -> fvalue.
+Variable transform : option (bytes -> bytes).
+Variable formatter : option (fvalue -> option bytes).
+Variable rules : ntype -> rules_fn.
+Variable custom_as_string : bytes -> bytes.
+Variable unescape_write : bytes -> bytes.
+Variable unescape_to_string : bytes -> bytes.
+Variable f64_from_str : bytes -> option fval.
+Variable b : bundle.
+Variable args : option fargs.
+Variable top : option pkey.
+Variable p : pattern.
+Variable intls : intl_cache.
+Variable Lmax Amax Fmax : nat.
+Variable Kmax : N.
+(* Tmax: the text of one pattern — the sum of what its text elements write (after the transform,
+   if any) — at most, over p, the bundle's patterns and all variant patterns inside them
+   (ResolverBytesLinear.text_max; <= the size of the resources when there is no transform) *)
+Variable Tmax : nat.
+Hypothesis Hwf : named_args_ok b p = true.                              (* as in C06_bounded_bytes *)
+Hypothesis Ha : strings_max b p <= Lmax.                                (* (a) *)
+Hypothesis Hb : args_size custom_as_string args <= Amax.                (* (b) *)
+Hypothesis Hc : external_bounded call_function transform formatter custom_as_string unescape_write
+                  unescape_to_string f64_from_str Lmax Fmax.            (* (c) *)
+Hypothesis Hd : (mfd_max f64_from_str b p <= Kmax)%N.                   (* (d): excludes D11 *)
+Hypothesis Ht : text_max transform b p <= Tmax.
+
+(* C06_bounded_bytes multiplies the widest piece by the number of pieces — a product of two input
+   sizes.  Counting the text elements by their bytes gives the sentence of the property as it
+   stands: the output has at most
+        Tmax + 101 x (Tmax + 8 W)  =  102 Tmax + 808 W      bytes,   W <= 2 max(L, A, F) + K + 3,
+   a fixed multiple (constants from MAX_PLACEABLES only) of the sizes of resources, arguments and
+   external outputs and of the largest minimumFractionDigits — no premise on C at all.  Each
+   increment of the placeable counter pays for one more pattern's text and eight other pieces. *)
+Theorem C06_bounded_bytes_linear :
+  let B := Nat.max Lmax (Nat.max Amax Fmax) in
+  let W := B + Nat.max (N.to_nat Kmax) B + 3 in
+  (forall fuel toks sc,
+     write_pattern overflow_checks call_function transform formatter rules custom_as_string
+       unescape_write unescape_to_string f64_from_str b args fuel top p intls = Done (toks, sc) ->
+     length (flatten toks) <= Tmax + (N.to_nat MAX_PLACEABLES + 1) * (Tmax + 8 * W)) /\
+  (forall fuel text sc,
+     format_pattern overflow_checks call_function transform formatter rules custom_as_string
+       unescape_write unescape_to_string f64_from_str b args fuel top p intls = Done (text, sc) ->
+     length text <= Tmax + (N.to_nat MAX_PLACEABLES + 1) * (Tmax + 8 * W)).
+Proof.
+  split.
+  - intros fuel toks sc H.
+    exact (write_pattern_bytes_linear overflow_checks call_function transform formatter rules custom_as_string
+             unescape_write unescape_to_string f64_from_str b args p Lmax Amax Fmax Kmax Tmax
+             Hwf Ha Hd Hb Hc Ht fuel top intls toks sc H).
+  - intros fuel text sc H.
+    exact (format_pattern_bytes_linear overflow_checks call_function transform formatter rules custom_as_string
+             unescape_write unescape_to_string f64_from_str b args p Lmax Amax Fmax Kmax Tmax
+             Hwf Ha Hd Hb Hc Ht fuel top intls text sc H).
+Qed.
+
+End C06_linear.
+Print Assumptions C06_bounded_bytes_linear.
+
+(* billion laughs again: Tmax = 3 ("lol"), W = 13: at most 3 + 101 x (3 + 104) = 10810 bytes (the run: 276) *)
+Example C06_example_linear_laughs :
+  forall fuel toks sc,
+    write_pattern true ex_call None None ex_rules_one ex_id ex_id ex_id f64_from_str_exact (Bundle laughs false) None
+      fuel (Some (PKey false (s "lol3") None)) (Pattern (repeat (ref "lol2") 10)) [] = Done (toks, sc) ->
+    length (flatten toks) <= 3 + (N.to_nat MAX_PLACEABLES + 1) * (3 + 8 * (5 + Nat.max 0 5 + 3)).
+Proof.
+  intros fuel toks sc H.
+  refine (proj1 (C06_bounded_bytes_linear true ex_call None None ex_rules_one ex_id ex_id ex_id f64_from_str_exact
+                   (Bundle laughs false) None (Some (PKey false (s "lol3") None)) (Pattern (repeat (ref "lol2") 10)) []
+                   4 0 5 0%N 3 _ _ _ _ _ _) fuel toks sc H).
+  - vm_compute. reflexivity.
+  - apply Nat.leb_le. vm_compute. reflexivity.
+  - apply Nat.leb_le. vm_compute. reflexivity.
+  - exact (ex_external_bounded 4).
+  - apply N.leb_le. vm_compute. reflexivity.
+  - apply Nat.leb_le. vm_compute. reflexivity.
+Qed.
+
+(* the mixed bundle: Tmax = 3, W = 21: at most 3 + 101 x (3 + 168) = 17274 bytes (the run: 63) *)
+Example C06_example_linear_rich :
+  forall fuel toks sc,
+    write_pattern true ex_call None None ex_rules_one ex_id ex_id ex_id f64_from_str_exact rich rich_args
+      fuel (Some (PKey false (s "m") None)) rich_p [] = Done (toks, sc) ->
+    length (flatten toks) <= 3 + (N.to_nat MAX_PLACEABLES + 1) * (3 + 8 * (9 + Nat.max 3 9 + 3)).
+Proof.
+  intros fuel toks sc H.
+  refine (proj1 (C06_bounded_bytes_linear true ex_call None None ex_rules_one ex_id ex_id ex_id f64_from_str_exact
+                   rich rich_args (Some (PKey false (s "m") None)) rich_p []
+                   8 3 9 3%N 3 _ _ _ _ _ _) fuel toks sc H).
+  - vm_compute. reflexivity.
+  - apply Nat.leb_le. vm_compute. reflexivity.
+  - apply Nat.leb_le. vm_compute. reflexivity.
+  - exact (ex_external_bounded 8).
+  - apply N.leb_le. vm_compute. reflexivity.
+  - apply Nat.leb_le. vm_compute. reflexivity.
+Qed.
